@@ -22,6 +22,7 @@ import (
 
 	"github.com/superfly/litefs/verifharness/core"
 	"github.com/superfly/litefs/verifharness/sim"
+	"github.com/superfly/litefs/verifharness/twowriters"
 )
 
 type replayCfg struct {
@@ -69,6 +70,7 @@ func main() {
 	// ---- 1. exhaustive model checking, every interleaving ----
 	runTLC(rep, "rb", "MC_DBLocks_rb.cfg", 5*time.Minute, nil)
 	runTLC(rep, "wal", "MC_DBLocks_wal.cfg", 5*time.Minute, nil)
+	runTLC(rep, "walclose", "MC_DBLocks_walclose.cfg", 5*time.Minute, nil)
 	if !args.Quick() {
 		for _, c := range []string{"rb3", "wal3", "walfull", "rb_2int", "wal_2int", "rb_snap", "wal_snap", "wal_dbops"} {
 			runTLC(rep, c, "MC_DBLocks_"+c+".cfg", 10*time.Minute, nil)
@@ -79,6 +81,7 @@ func main() {
 		runRelevance(rep, "rel_txnolock", "MC_DBLocks_rel_txnolock.cfg", "WritesInsideSection")
 		runRelevance(rep, "rel_nowalguard", "MC_DBLocks_rel_nowalguard.cfg", "WalWriteNeedsWriteLock")
 		runRelevance(rep, "lead_walowner", "MC_DBLocks_lead_walowner.cfg", "WalWriteByHolder")
+		runRelevance(rep, "rel_flushall", "MC_DBLocks_rel_flushall.cfg", "Exclusion")
 	}
 
 	// ---- 2. replay of the complete graphs + real operations in their states ----
@@ -86,6 +89,9 @@ func main() {
 		{"rb_replay", "MC_DBLocks_rb_replay.cfg", "rollback", []string{"a", "b"}, []string{"i"}, 30 * time.Second, core.Pick(args, 60, 400)},
 		{"wal_replay", "MC_DBLocks_wal_replay.cfg", "wal", []string{"a", "b"}, []string{"i"}, core.Pick(args, 40*time.Second, 3*time.Minute), core.Pick(args, 90, 800)},
 	}
+	// WAL connections that also take the database-file locks (up to EXCLUSIVE) and close their -shm /
+	// database descriptors in every protocol state (PRAGMA journal_mode=DELETE closes -shm under EXCLUSIVE)
+	cfgs = append(cfgs, replayCfg{"walclose_replay", "MC_DBLocks_walclose_replay.cfg", "wal", []string{"a", "b"}, []string{"i"}, core.Pick(args, 20*time.Second, 2*time.Minute), core.Pick(args, 0, 300)})
 	if !args.Quick() {
 		cfgs = append(cfgs,
 			replayCfg{"rb3_replay", "MC_DBLocks_rb3_replay.cfg", "rollback", []string{"a", "b", "c"}, []string{"i"}, 2 * time.Minute, 200},
@@ -118,7 +124,9 @@ func main() {
 	}
 	rep.Extra["replay"] = totals
 
-	// ---- 3. scenarios with several nodes ----
+	// ---- 3. directed scenarios ----
+	shmCloseScenario(rep, layout)
+	twowriters.Stage(rep, args, "C11")
 	txScenario(rep, layout)
 	replicaScenario(rep, "rollback", layout)
 	replicaScenario(rep, "wal", layout)
@@ -151,6 +159,12 @@ func replayFile(rep *core.Report, path string, layout sim.Layout) {
 		return
 	case "replica-apply":
 		replicaScenario(rep, f.Replay.Mode, layout)
+		return
+	case "shm-close":
+		shmCloseScenario(rep, layout)
+		return
+	case "twowriters":
+		twowriters.ReplayFile(rep, "C11", b)
 		return
 	case "edge", "operation":
 	default:
